@@ -92,6 +92,8 @@ class BondDescriptor(BigSMILESbase):
             weight_string = self._raw_text[self._raw_text.find("|") : self._raw_text.rfind("|")]
             weight_string = weight_string.strip("|")
             weight_list = [float(w) for w in weight_string.split()]
+            if len(weight_list) == 0:
+                raise RuntimeError(f"Empty weight in bond descriptor {self._raw_text}")
             if len(weight_list) == 1:
                 self.weight = weight_list[0]
             else:
